@@ -320,6 +320,10 @@ fn gen_msg_c07(rng: &mut Rng, tier: Tier) -> msg::MsgScn {
                 *max_n = 4;
                 *sample = Some(12);
             }
+            Some(Expand::Permutations { max_n, sample, .. }) => {
+                *max_n = 3;
+                *sample = 4;
+            }
             _ => {}
         }
     }
@@ -368,6 +372,51 @@ fn gen_msg_c07(rng: &mut Rng, tier: Tier) -> msg::MsgScn {
             c.session = Some((Some("a".into()), Some("n".into())));
         }
         s.cases.push(c);
+    }
+    // byzantine structures that stress recursion: a digest chain through N nested disclosures,
+    // deeply nested plain containers, arrays full of placeholders
+    let n_chain = match tier {
+        Tier::Quick => 20 + rng.usize(100),
+        Tier::Thorough => 100 + rng.usize(700),
+    };
+    let mut discs: Vec<String> = Vec::new();
+    for i in 0..n_chain {
+        let inner = if i + 1 < n_chain {
+            if rng.bool() {
+                json!({"_sd": [format!("@{}", i + 1)]})
+            } else {
+                json!([{"...": format!("@{}", i + 1)}])
+            }
+        } else {
+            json!("bottom")
+        };
+        let named = i == 0 || discs.last().map(|d: &String| d.contains("_sd")).unwrap_or(true);
+        discs.push(if named { json!([format!("s{}", i), format!("n{}", i), inner]).to_string() } else { json!([format!("s{}", i), inner]).to_string() });
+    }
+    let exp = s.clock_base + 86400;
+    let mut payload = json!({"iss": s.issuers[0].iss, "exp": exp, "_sd_alg": "sha-256", "_sd": ["@0"]});
+    let depth = 10 + rng.usize(if tier == Tier::Quick { 100 } else { 126 });
+    payload["deep"] = deep_value(rng, depth);
+    payload["many"] = Value::Array((0..(50 + rng.usize(200))).map(|i| json!({"...": format!("unmatched-digest-{}", i)})).collect());
+    let ci = s.creds.len();
+    s.creds.push(msg::CredSpec::Byz { issuer: 0, typ: None, payload, disclosures: discs.clone() });
+    let pi = s.pres.len();
+    s.pres.push(msg::PresSpec::Direct { cred: ci, picks: (0..n_chain).collect() });
+    for f in [Fmt::Compact, Fmt::Json] {
+        s.cases.push(plain(Base::Pres(pi), f));
+    }
+    // the same chain handed to the holder constructor and a deep selection
+    let mut sel = json!(true);
+    for _ in 0..(5 + rng.usize(60)) {
+        // one child per level (two would double the size at every level)
+        sel = match rng.usize(3) {
+            0 => json!({"n0": sel, "deep": true}),
+            1 => json!({"n": sel}),
+            _ => json!([sel]),
+        };
+    }
+    if let Value::Object(o) = json!({"n0": sel.clone(), "deep": sel, "many": [true, false, [true], {"x": true}]}) {
+        s.pres.push(msg::PresSpec::Holder { cred: ci, selection: o, kb: None });
     }
     s.check = "C07".into();
     s
